@@ -194,6 +194,7 @@ Theorem C02_early_cutoff : forall (H : str -> str) cfg s1 s2 roots w c (E K : na
   (rt_status (get_rt F1 d) = THit \/ rt_status (get_rt F1 d) = TExecuted) ->
   (forall x, In x (td_deps td) -> K x = false \/
       (exists t1 t2, node_at s1 x = Some (NTarget t1) /\ node_at s2 x = Some (NTarget t2) /\
+         td_label t1 = td_label t2 /\
          (rt_status (get_rt F2 x) = THit \/ rt_status (get_rt F2 x) = TExecuted) /\
          rt_ohash (get_rt F2 x) = rt_ohash (get_rt F1 x))) ->
   (cfg_failfast cfg = false \/ br_ok r2 = true) ->
